@@ -1098,7 +1098,15 @@ def rule_par_pure(F, ev, R, config, rule="R-PAR-PURE", metadata=None):
                                 if any(s in p for s in ("std::sync::", "std::cell::", "std::thread::", "std::io::", "std::fs::", "std::env::", "atomic", "static_mut")):
                                     bad.append(p[:60])
                     for u in F.unsafe_blocks:
-                        if u["block"]["user"] and u["in"] == cb.j.get("root") and cb.j["span"]["line"] <= u["block"]["span"]["line"] <= cb.j["span"]["eline"]:
+                        if not u["block"]["user"] or u["in"] != cb.j.get("root"):
+                            continue
+                        if "closure" in u["block"]:
+                            # by nesting (recorded by the extractor): inside this closure or one nested in it
+                            uc = u["block"]["closure"]
+                            inside = uc is not None and (uc == cb.key or uc.startswith(cb.key + "::"))
+                        else:
+                            inside = cb.j["span"]["line"] <= u["block"]["span"]["line"] <= cb.j["span"]["eline"]
+                        if inside:
                             bad.append("unsafe block")
                     R.add(rule, config, cb.key, "no-shared-mutation", not bad, "" if not bad else "closure run by rayon uses %s" % bad[:3], cb.j["span"])
                 if fn["name"] == "collect":
